@@ -135,7 +135,7 @@ theorem send_fail_leaf {V : Variant} {v1 : Bool} {sS sR : List Bytes} {s s' : St
     (hR : R' V v1 sS sR s j) (hbz : aioBusy s a = false) (c : Option Nat) (m : WMsg) (mode : Mode) (rv : Nat)
     (hv : view s' = view s) (hA' : All V s') (hrv : rv ≠ 0) (hb : badHdr v1 s.raw m = (rv == Err.eproto))
     (hpoll : mode = .nb → ∀ r w, j.lastPoll = some (r, w) → ¬ (w = true ∧ rv = Err.eagain)) :
-    R' V v1 (sS ++ [m.body]) sR s' (pairStep j (.send c a m mode) [.done a rv none true]) := by
+    R' V v1 (sS ++ [m.body]) sR s' (pairStepOld j (.send c a m mode) [.done a rv none true]) := by
   obtain ⟨j0, hj0⟩ : ∃ j0 : PairJ, j0 = { j with lastPoll := none } := ⟨_, rfl⟩
   have hR0 : R V v1 sS sR s j0 := hj0 ▸ hR.1
   obtain ⟨hfn, _, _⟩ := busy_facts hR0 hbz
@@ -155,7 +155,7 @@ theorem send_buf_leaf {V : Variant} {v1 : Bool} {sS sR : List Bytes} {s s' : Sta
     (hbad : badHdr v1 s.raw m = false) (hwire : V.txWire m' = wireForm v1 s.raw m)
     (hv : view s' = view { s with wmq := s.wmq ++ [⟨g, m'⟩] }) (hA' : All V s') (hfr : m.body ∉ sS)
     (hpoll : mode = .nb → ∀ r w, j.lastPoll = some (r, w) → w = true) :
-    R' V v1 (sS ++ [m.body]) sR s' (pairStep j (.send c a m mode) [.done a 0 none false]) := by
+    R' V v1 (sS ++ [m.body]) sR s' (pairStepOld j (.send c a m mode) [.done a 0 none false]) := by
   obtain ⟨j0, hj0⟩ : ∃ j0 : PairJ, j0 = { j with lastPoll := none } := ⟨_, rfl⟩
   have hR0 : R V v1 sS sR s j0 := hj0 ▸ hR.1
   obtain ⟨hfn, _, _⟩ := busy_facts hR0 hbz
@@ -192,7 +192,7 @@ theorem send_wire_leaf {V : Variant} {v1 : Bool} {sS sR : List Bytes} {s s' : St
     (hA' : All V s') (hfr : m.body ∉ sS)
     (hpoll : mode = .nb → ∀ r w, j.lastPoll = some (r, w) → w = true) :
     R' V v1 (sS ++ [m.body]) sR s'
-      (pairStep j (.send c a m mode) [.done a 0 none false, .psend p (V.txWire m')]) := by
+      (pairStepOld j (.send c a m mode) [.done a 0 none false, .psend p (V.txWire m')]) := by
   obtain ⟨j0, hj0⟩ : ∃ j0 : PairJ, j0 = { j with lastPoll := none } := ⟨_, rfl⟩
   have hR0 : R V v1 sS sR s j0 := hj0 ▸ hR.1
   obtain ⟨hfn, _, _⟩ := busy_facts hR0 hbz
@@ -238,7 +238,7 @@ theorem send_park_leaf {V : Variant} {v1 : Bool} {sS sR : List Bytes} {s s' : St
     (hmode : mode ≠ .nb)
     (hbad : badHdr v1 s.raw m = false) (hwire : V.txWire m' = wireForm v1 s.raw m)
     (hv : view s' = view { s with waq := s.waq ++ [⟨a, ⟨g, m'⟩, dl⟩] }) (hA' : All V s') (hfr : m.body ∉ sS) :
-    R' V v1 (sS ++ [m.body]) sR s' (pairStep j (.send c a m mode) []) := by
+    R' V v1 (sS ++ [m.body]) sR s' (pairStepOld j (.send c a m mode) []) := by
   obtain ⟨j0, hj0⟩ : ∃ j0 : PairJ, j0 = { j with lastPoll := none } := ⟨_, rfl⟩
   have hR0 : R V v1 sS sR s j0 := hj0 ▸ hR.1
   obtain ⟨hfn, hwa, hra⟩ := busy_facts hR0 hbz
@@ -289,7 +289,7 @@ theorem ev_send {V : Variant} {v1 : Bool} {sS sR : List Bytes} {s : State} {j : 
     (hfr : m.body ∉ sS)
     (hA' : All V (stepLive V s (.send c a m mode)).1) :
     R' V v1 (sS ++ [m.body]) sR (stepLive V s (.send c a m mode)).1
-      (pairStep j (.send c a m mode) (stepLive V s (.send c a m mode)).2) := by
+      (pairStepOld j (.send c a m mode) (stepLive V s (.send c a m mode)).2) := by
   simp only [stepLive] at hA' ⊢
   by_cases hbz : aioBusy s a = true
   · simp only [hbz, if_true] at hA' ⊢
